@@ -99,7 +99,7 @@ NewScreen(o) ==
     /\ ~obj[o].made
     /\ LET c == ObjCfg(o)  start == IF BugSharedInstance THEN SharedPos ELSE 0
        IN  /\ obj' = [obj EXCEPT ![o] = [made |-> TRUE, pos |-> 2*c.slen*c.slen, rows |-> 0]]
-           /\ Log([a |-> "new", o |-> o, prov |-> << <<ObjStream(o), start, start + 2*c.slen*c.slen>> >>])
+           /\ Log([a |-> "new", o |-> o, again |-> FALSE, prov |-> << <<ObjStream(o), start, start + 2*c.slen*c.slen>> >>])
     /\ UNCHANGED <<glob, gen, nfresh>>
 AddRow(o) ==
     /\ obj[o].made
@@ -108,6 +108,13 @@ AddRow(o) ==
            /\ Log([a |-> "add_row", o |-> o, rows |-> obj[o].rows + 1, prov |-> << <<ObjStream(o), start, start + c.nx>> >>])
     /\ UNCHANGED <<glob, gen, nfresh>>
 
+\* make_initial_screen() called again on a used object (rewind): the object is what a fresh one with its seed is
+Reinit(o) ==
+    /\ obj[o].made /\ ~BugSharedInstance
+    /\ LET c == ObjCfg(o)
+       IN  /\ obj' = [obj EXCEPT ![o] = [made |-> TRUE, pos |-> 2*c.slen*c.slen, rows |-> 0]]
+           /\ Log([a |-> "new", o |-> o, again |-> TRUE, prov |-> << <<ObjStream(o), 0, 2*c.slen*c.slen>> >>])
+    /\ UNCHANGED <<glob, gen, nfresh>>
 \* copy.deepcopy(src) -> dst (twins only, so that dst's later rows are keyed like src's): dst is a screen instance of its own,
 \* with its own generator at the position src had reached
 Clone(src, dst) ==
@@ -142,6 +149,7 @@ Next ==
        \/ Focus = "all" /\ \E p \in Params : FtNone(p) \/ FtGen(p) \/ FtShNone(p) \/ FtShGen(p)
        \/ \E o \in Objs : NewScreen(o) \/ (IF BugCloneShares /\ o = "o2" THEN AddRowShared(o) ELSE AddRow(o))
        \/ \E o, o2 \in Objs : Clone(o, o2)
+       \/ \E o \in Objs : Reinit(o)
        \/ \E f \in 1..2 : Unrelated(f)
        \/ GlobalUser \/ GlobalDraw \/ \E x \in {5} : GlobalSeed(x)
 Spec == Init /\ [][Next]_vars
